@@ -22,57 +22,57 @@ func parseCone(w *World) map[*types.Func]*ast.FuncDecl {
 var c07Reviewed = []reviewedEntry{
 	// lexer: pos/start never exceed len(input): next() stops at len, the comment scanners add the
 	// length of a prefix that HasPrefix/Index found
-	{"lexer.next", "l.input[l.pos:]", "guarded by int(l.pos) >= len(l.input) ⇒ return eof", "lenguard"},
-	{"lexer.emit", "l.input[l.start:l.pos]", "start ≤ pos ≤ len(input): pos only grows by widths of decoded runes or lengths of matched prefixes; start is a former pos", ""},
-	{"lexer.lineNumber", "l.input[:l.lastPos]", "lastPos is the start of an emitted item", ""},
-	{"lexComment", "l.input[l.pos:]", "pos was advanced by the length of the comment opener that HasPrefix found at pos", ""},
-	{"lexCommentLine", "l.input[l.pos:]", "pos was advanced by the length of the comment opener that HasPrefix found at pos", ""},
-	{"lexStmt", "l.input[l.pos:]", "pos ≤ len(input) (see emit)", ""},
-	{"lexQuote", "l.input[l.start]", "lexStmt has just consumed the quote at start (start < pos)", ""},
+	{"lexer.next", "‹*parse.lexer›.input[‹*parse.lexer›.pos:]", "guarded by int(l.pos) >= len(l.input) ⇒ return eof", "lenguard"},
+	{"lexer.emit", "‹*parse.lexer›.input[‹*parse.lexer›.start:‹*parse.lexer›.pos]", "start ≤ pos ≤ len(input): pos only grows by widths of decoded runes or lengths of matched prefixes; start is a former pos", ""},
+	{"lexer.lineNumber", "‹*parse.lexer›.input[:‹*parse.lexer›.lastPos]", "lastPos is the start of an emitted item", ""},
+	{"lexComment", "‹*parse.lexer›.input[‹*parse.lexer›.pos:]", "pos was advanced by the length of the comment opener that HasPrefix found at pos", ""},
+	{"lexCommentLine", "‹*parse.lexer›.input[‹*parse.lexer›.pos:]", "pos was advanced by the length of the comment opener that HasPrefix found at pos", ""},
+	{"lexStmt", "‹*parse.lexer›.input[‹*parse.lexer›.pos:]", "pos ≤ len(input) (see emit)", ""},
+	{"lexQuote", "‹*parse.lexer›.input[‹*parse.lexer›.start]", "lexStmt has just consumed the quote at start (start < pos)", ""},
 	{"itemType.String", "types[i]", "item types are the constants that index the table", ""},
 	{"item.String", "", "", ""},
 	// parser
-	{"Tree.next", "t.token[t.peekCount]", "peekCount is 0..2 after the decrement: it is only set to 1, 2 or 3", ""},
+	{"Tree.next", "‹*parse.Tree›.token[‹*parse.Tree›.peekCount]", "peekCount is 0..2 after the decrement: it is only set to 1, 2 or 3", ""},
 	{"Tree.peek", "t.token[t.peekCount - 1]", "guarded by peekCount > 0; peekCount ≤ 3", ""},
 	{"Tree.done", "t.token[:]", "full slice of an array", ""},
 	{"Tree.done", "empty[:]", "full slice of an array", ""},
-	{"Tree.ErrorContextPosition", "t.text[:pos]", "pos is the position of a node of this text", ""},
-	{"Tree.errorf", "t.lex.input[:t.lex.lastPos]", "lastPos is the start of an emitted item", ""},
-	{"escapeSequenceSubstitution", "st[:1]", "st is non-empty (the empty case continues)", ""},
-	{"escapeSequenceSubstitution", "st[1:]", "st is non-empty (the empty case continues)", ""},
-	{"openQuotePos", "t.lex.input[:t.lex.lastPos]", "lastPos is the start of an emitted item", ""},
-	{"openQuotePos", "t.lex.input[:posStart]", "the string item lies before the closing quote that was just consumed, so LastIndex finds it", ""},
-	{"openQuotePos", "t.lex.input[lnBgn:posStart]", "lnBgn is a line start at or before posStart", ""},
-	{"trimLeadWS", "s[i:]", "i is a range index of s", ""},
-	{"trimLeadWS", "tabOfWS[:wsCount - trimLen]", "wsCount first reaches trimLen by a step of at most 8", ""},
-	{"trimLeadWS", "s[i + 1:]", "i is the index of a one-byte blank", ""},
-	{"trimWhitespace", "str[len(str) - 1]", "guarded by len(str) > 0 && … in the same condition", "lenguard"},
-	{"trimWhitespace", "str[:len(str) - cr]", "cr is 1 only when the last byte is CR (set under len(str) > 0), so len(str) ≥ cr; R08.9 shows cr is not carried over from another line", ""},
-	{"trimWhitespace", "lineBreaks[cr]", "cr is 0 or 1", ""},
+	{"Tree.ErrorContextPosition", "‹*parse.Tree›.text[:‹int›]", "pos is the position of a node of this text", ""},
+	{"Tree.errorf", "‹*parse.Tree›.lex.input[:‹*parse.Tree›.lex.lastPos]", "lastPos is the start of an emitted item", ""},
+	{"escapeSequenceSubstitution", "‹string›[:1]", "st is non-empty (the empty case continues)", ""},
+	{"escapeSequenceSubstitution", "‹string›[1:]", "st is non-empty (the empty case continues)", ""},
+	{"openQuotePos", "‹*parse.Tree›.lex.input[:‹*parse.Tree›.lex.lastPos]", "lastPos is the start of an emitted item", ""},
+	{"openQuotePos", "‹*parse.Tree›.lex.input[:‹int›]", "the string item lies before the closing quote that was just consumed, so LastIndex finds it", ""},
+	{"openQuotePos", "‹*parse.Tree›.lex.input[‹int›:‹int›]", "lnBgn is a line start at or before posStart", ""},
+	{"trimLeadWS", "‹string›[‹int›:]", "i is a range index of s", ""},
+	{"trimLeadWS", "‹string›[:‹int› - ‹int›]", "wsCount first reaches trimLen by a step of at most 8", ""},
+	{"trimLeadWS", "‹string›[‹int› + 1:]", "i is the index of a one-byte blank", ""},
+	{"trimWhitespace", "‹string›[len(‹string›) - 1]", "guarded by len(str) > 0 && … in the same condition", "lenguard"},
+	{"trimWhitespace", "‹string›[:len(‹string›) - ‹int›]", "cr is 1 only when the last byte is CR (set under len(str) > 0), so len(str) ≥ cr; R08.9 shows cr is not carried over from another line", ""},
+	{"trimWhitespace", "‹[2]string›[‹int›]", "cr is 0 or 1", ""},
 	// nodes and arguments
-	{"IdArg.Parse", "str[:3]", "guarded by len(str) >= 3", "lenguard"},
-	{"IdArg.Parse", "str[0]", "guarded by len(str) == 0 ⇒ return", "lenguard"},
-	{"IdArg.Parse", "str[i]", "loop index below len(str)", ""},
-	{"IdRefArg.Parse", "parts[0]", "inside case len(parts) == 1 or 2", ""},
-	{"IdRefArg.Parse", "parts[1]", "inside case len(parts) == 2", ""},
-	{"DateArg.Parse", "str[:i]", "i is 4 resp. 2 with len(str) == 10 resp. 5", ""},
-	{"DateArg.Parse", "str[i + 1:]", "i is 4 resp. 2 with len(str) == 10 resp. 5", ""},
-	{"KeyArg.split", "str[pos]", "loop index below len(str)", ""},
-	{"KeyArg.split", "str[start:pos]", "start ≤ pos ≤ len(str)", ""},
-	{"UniqueArg.split", "str[pos]", "loop index below len(str)", ""},
-	{"UniqueArg.split", "str[start:pos]", "start ≤ pos ≤ len(str)", ""},
-	{"AbsoluteSchemaArg.Parse", "strs[0]", "guarded by len(strs) < 2 ⇒ return", "lenguard"},
-	{"AbsoluteSchemaArg.Parse", "strs[1:]", "guarded by len(strs) < 2 ⇒ return", "lenguard"},
-	{"DescendantSchemaArg.Parse", "strs[0]", "guarded by len(strs) < 1 ⇒ return (Split never returns an empty slice)", "lenguard"},
-	{"RangeArg.Parse", "rbs[0]", "inside case len(rbs) == 1 or 2", ""},
-	{"RangeArg.Parse", "rbs[1]", "inside case len(rbs) == 2", ""},
-	{"LengthArg.Parse", "bs[0]", "inside case len(bs) == 1 or 2", ""},
-	{"LengthArg.Parse", "bs[1]", "inside case len(bs) == 2", ""},
-	{"getArgByType", "nodeNames[ntype]", "only in the default arm, with a NodeType constant", ""},
+	{"IdArg.Parse", "‹string›[:3]", "guarded by len(str) >= 3", "lenguard"},
+	{"IdArg.Parse", "‹string›[0]", "guarded by len(str) == 0 ⇒ return", "lenguard"},
+	{"IdArg.Parse", "‹string›[‹int›]", "loop index below len(str)", ""},
+	{"IdRefArg.Parse", "‹[]string›[0]", "inside case len(parts) == 1 or 2", ""},
+	{"IdRefArg.Parse", "‹[]string›[1]", "inside case len(parts) == 2", ""},
+	{"DateArg.Parse", "‹string›[:‹int›]", "i is 4 resp. 2 with len(str) == 10 resp. 5", ""},
+	{"DateArg.Parse", "‹string›[‹int› + 1:]", "i is 4 resp. 2 with len(str) == 10 resp. 5", ""},
+	{"KeyArg.split", "‹string›[‹int›]", "loop index below len(str)", ""},
+	{"KeyArg.split", "‹string›[‹int›:‹int›]", "start ≤ pos ≤ len(str)", ""},
+	{"UniqueArg.split", "‹string›[‹int›]", "loop index below len(str)", ""},
+	{"UniqueArg.split", "‹string›[‹int›:‹int›]", "start ≤ pos ≤ len(str)", ""},
+	{"AbsoluteSchemaArg.Parse", "‹[]string›[0]", "guarded by len(strs) < 2 ⇒ return", "lenguard"},
+	{"AbsoluteSchemaArg.Parse", "‹[]string›[1:]", "guarded by len(strs) < 2 ⇒ return", "lenguard"},
+	{"DescendantSchemaArg.Parse", "‹[]string›[0]", "guarded by len(strs) < 1 ⇒ return (Split never returns an empty slice)", "lenguard"},
+	{"RangeArg.Parse", "‹[]string›[0]", "inside case len(rbs) == 1 or 2", ""},
+	{"RangeArg.Parse", "‹[]string›[1]", "inside case len(rbs) == 2", ""},
+	{"LengthArg.Parse", "‹[]string›[0]", "inside case len(bs) == 1 or 2", ""},
+	{"LengthArg.Parse", "‹[]string›[1]", "inside case len(bs) == 2", ""},
+	{"getArgByType", "nodeNames[‹parse.NodeType›]", "only in the default arm, with a NodeType constant", ""},
 	{"getArgByType", "panic(fmt.Errorf(\"Unexpected type %s\", nodeNames[ntype]))", "unreachable for RFC keywords: R09.3 shows every statement has a case; NodeTypeFromName yields only table types", ""},
 	{"NodeType.String", "nodeNames[t]", "node types are the constants that index the table", ""},
-	{"Tree.recover", "e.(error)", "every explicit panic in the cone carries an error (R07.3) and runtime errors are re-raised just above", ""},
-	{"hasArgument.ArgDate", "h.arg.(*DateArg)", "only called on revision statements, whose argument is a DateArg by getArgByType (R09.3)", ""},
+	{"Tree.recover", "‹interface{}›.(error)", "every explicit panic in the cone carries an error (R07.3) and runtime errors are re-raised just above", ""},
+	{"hasArgument.ArgDate", "‹*parse.hasArgument›.arg.(*DateArg)", "only called on revision statements, whose argument is a DateArg by getArgByType (R09.3)", ""},
 	{"node.ChildByType", "ch[0]", "guarded by len(ch) < 1 ⇒ return", "lenguard"},
 }
 
